@@ -84,6 +84,18 @@ CHECKS.update({
             "Never-early (a batch goes out only when a threshold over the uncancelled queue holds or the time limit ticked), never-late (warm, fault-free histories: thresholds met => dispatched; bounded wait with a time limit), cancel-before-dispatch never transmitted and uncounted, stop fails outstanding sends and transmits nothing, no timer left. Clause narrowing recorded in DESIGN.md: a send whose broker answer had already reached the client may be reported truthfully at stop.", CL_NOTE, "DESIGN.md 3/C19"),
 })
 
+CONS_T = "stateful property-based testing of the real Consumer + KafkaClient + codec on a simulated stateful cluster with a scripted processor; Hypothesis draws logs, start positions, scheduler choices, faults, stop/shutdown/crash points; oracles quote the partition log, the coordinator's offset store and the request stream; ddmin-shrunk JSON traces"
+CHECKS.update({
+    "C02": ("CONS", CONS_T,
+            "Search over logs (wrappers in both formats, gaps, oversized messages), start positions, reply/processor/timer orders and fault sequences: every processor invocation is compared with the log from the resolved start position (order, no repeat, no omission, key/value), re-entrance while a result is pending is observed directly, and after faults cease the rest of the log must arrive.", CL_NOTE, "DESIGN.md 3/C02"),
+    "C03": ("CONS", CONS_T,
+            "Every OffsetCommit is judged at the instant it is issued against the set of successfully completed invocations; one commit outstanding; last-committed only from delivered replies; crash (consumer and client dropped, cluster kept) and restart from the committed position must deliver first exactly the record after the stored offset.", CL_NOTE, "DESIGN.md 3/C03"),
+    "C13": ("CONS", CONS_T,
+            "stop/shutdown drawn at any step (incl. from inside the processor, with a commit in flight or in backoff, with a reply parked): nothing issued or invoked afterwards, no afkak timer left, start()/shutdown() Deferreds fire exactly once (extra attempts counted) with the documented values, shutdown success implies the offset store holds the last processed offset, restart works.", CL_NOTE, "DESIGN.md 3/C13"),
+    "C14": ("CONS", CONS_T,
+            "Virtual-time measurement of retry delays after gap-free chains of consecutive failures (geometric, capped, reset by success), attempt limit, reset policy followed after out-of-range answers, buffer growth rule incl. across 1 MiB and at the maximum.", CL_NOTE, "DESIGN.md 3/C14"),
+})
+
 NOT_YET = {
 }
 
@@ -127,6 +139,7 @@ def main():
             {"name": "BC", "path": "vlib/engines/bc.py", "serves_properties": ["C06", "C10"], "kind_free_text": "real _KafkaBrokerClient / KafkaBootstrapProtocol on simulated time and transports (vlib/simnet.py) against a scripted peer, with a reference model of the request table; traces are JSON and replay without Hypothesis"},
             {"name": "CL", "path": "vlib/engines/cl.py", "serves_properties": ["C04", "C07", "C08", "C11", "C20"], "kind_free_text": "real KafkaClient on simulated time/transports against vlib/simkafka.py (stateful cluster model built on the independent protocol implementation); Hypothesis draws calls, scheduler choices and faults; traces replay without Hypothesis"},
             {"name": "PROD", "path": "vlib/engines/prod.py", "serves_properties": ["C01", "C04", "C09", "C19"], "kind_free_text": "real Producer + KafkaClient on simulated time/transports against vlib/simkafka.py; acknowledgement ledger as ground truth; reference model of batching"},
+            {"name": "CONS", "path": "vlib/engines/cons.py", "serves_properties": ["C02", "C03", "C13", "C14"], "kind_free_text": "real Consumer + KafkaClient on simulated time/transports against vlib/simkafka.py (partition log, offset store, long-poll fetch); scripted processor; crash = drop consumer and client, keep the cluster"},
             {"name": "structured", "path": "checks/", "serves_properties": ["C04", "C05", "C12", "C15", "C18"], "kind_free_text": "Hypothesis @given over composite strategies with an independent protocol implementation (vlib/refproto) or foreign implementation (JVM) as oracle"},
         ],
         "checks": checks,
